@@ -123,7 +123,11 @@ def cases(draw, tier):
             st.sampled_from(['upstream: 410730,"Cotter at Gingera', 'a,"b',
                              '"', '""', 'x,"y",z', "it's, 'quoted", '",',
                              'tab\there', 'a,b,c,d,e,f,g,h', ',', '#,"#',
-                             '5" pipe', "O'Neil,\"x", 'back\\slash,"q']),
+                             '5" pipe', "O'Neil,\"x", 'back\\slash,"q',
+                             '410730 : Cotter at Gingera', 'obs : sim : ref',
+                             '1990-01-01 00:00 : 2020-12-31 23:00', 'a :b',
+                             'key : value', 'x: y', 'p :', ': q', '::', '#',
+                             '# nrow : 5']),
         )).strip()
         if not val or "-" * 10 in val:
             val = "c:" + val.replace("-", "")
